@@ -886,10 +886,21 @@ def g_c15(d: Draw) -> dict:
         else:
             ops.append(dict(op="call", inst="E:main", args=draw_args(d, dg, 0.0)))
         ops.append(dict(op="results_keys", inst="E:main"))
+        if dg["has_setup"] and d.bool(0.5):
+            # a cache file written by ANOTHER instance of the same pipeline (other arguments, so other setup values) is used to
+            # restart an executor on E: the restart sees the cached values, E's own stored setup results must survive it
+            ops.insert(1, dict(op="setup", inst="E:main"))
+            ops.append(dict(op="executor", inst="F:main", ex="cw", cache_in="x.pkl"))
+            ops.append(dict(op="exrun", ex="cw", args=draw_args(d, dg, 0.0)))
+            ops.append(dict(op="executor", inst="E:main", ex="cr", from_cache="x.pkl"))
+            ops.append(dict(op="exrun", ex="cr", args=draw_args(d, dg, 0.0)))
+            ops.append(dict(op="results_keys", inst="E:main"))
         for _ in range(d.int(1, 2)):
             ops.append(dict(op="call", inst="E:main", args=draw_args(d, dg, 0.85)))
         ops.append(dict(op="results_keys", inst="E:main"))
-        return base_scn(spec, ops)
+        scn = base_scn(spec, ops)
+        scn["prebuild"].append(dict(env="F", dags=spec["order"]))
+        return scn
     spec = gen.gen_program(d, P_C15)
     dg = spec["dags"]["main"]
     from .model import HistoryModel
